@@ -162,6 +162,14 @@ def build(tier):
     more(P)
     per_contracts(P)
     P.specns['H0'] = z3.Const('H0', z3.ArraySort(z3.IntSort(), R.Row))
+    P.native.append(dict(name='setitem', adapter='c11:setitem', thorough_only=True, payload={"mode": "search"},
+                         bound='segment-tree updates (sum/min, capacities 1-64): well-formed tree, root = fold'))
+    P.native.append(dict(name='retrieve', adapter='c11:retrieve', thorough_only=True, payload={"mode": "search"},
+                         bound='prefix-sum descents incl. zero-mass leaves and boundary draws'))
+    P.native.append(dict(name='operate', adapter='c11:operate', thorough_only=True, payload={"mode": "search"},
+                         bound='range folds against the definition'))
+    P.native.append(dict(name='per', adapter='c11:per', thorough_only=True, payload={"mode": "search"},
+                         bound='PrioritizedReplayBuffer sequences with controlled variates: strata, max-priority inserts, weights in (0,1]'))
     return P
 
 
